@@ -63,6 +63,10 @@ T = {
  "C09": ("Static analysis of the structural clauses of the store: calls into the wrapped store are serialised by the per-id RWMutex in the right mode with deferred release; ids given to the unlocked SetUnchecked are freshly generated (value-origin analysis through request struct fields); pooled lock entries are published with counter 1, the counter is atomic and entryTable is accessed under its mutex; errors of every integrity-relevant read/write and of block authentication are propagated; the raw store is not used outside the package except the start-up scan; Set opens with O_CREATE|O_TRUNC. Byte-exact round trip, corruption-detection strength and listing are not decided.",
          "Trusts go/ssa, lock-region analysis, value-origin walk.",
          "lock/typestate pairing + value-origin (T-SOURCE) + error-propagation (T-NODROP) + constant-flag check", "DESIGN.md 4/C09"),
+
+ "C10": ("Static analysis of the case-folding, exhaustiveness, chunking and number-range clauses: every keyword comparison / table lookup in imap/command compares lower-cased text (value-origin analysis through parameters and struct fields) with a lower-case constant, the case-sensitive ConsumeBytes is never used for letters; every Builder is registered, registry keys are lower-case, every payload type is dispatched by the session and the UID table agrees with handleUID; the scanner/collector never use a bare Read; the number bound is exactly 2^32-1. That the parsed value equals the written command (no argument dropped/reordered) is not decided.",
+         "Trusts go/ssa, go/types method sets, the value-origin walk.",
+         "value-origin (taint-style) case-folding analysis + exhaustiveness over go/types + sibling agreement", "DESIGN.md 4/C10"),
 }
 NA_REASON = {}
 checks = []
